@@ -1,2 +1,77 @@
-(* C15 placeholder *)
-From MsiModel Require Import Base.
+(* C15 -- A successful flush means the data reached the medium, even when writes fail.
+   Model (Io.v): a medium whose write calls fail according to ANY schedule (nat -> bool: one transient fault, a persistent
+   one, any pattern), the container's buffered stream (8 KiB write-back buffer; Drop discards the result of its final flush),
+   a write path = write the chunks with `?`, flush-and-propagate or not, drop; a save = a sequence of write paths each
+   propagated.  Whether each real write function flushes and whether finish / flush / exec propagate is regenerated from
+   the source on every run (GenIo.v): C15_discipline breaks as soon as one of them stops doing so.
+   Partial: cfb's own sector / FAT / directory writes are below this model; they are exercised by the fault enumeration
+   on the real medium (every write index of several scripts), which is the correspondence for this property.
+   Statements only; every proof is `exact <lemma>` from theories/. *)
+From MsiModel Require Import Base Io IoProofs.
+From MsiGen Require Import GenIo.
+Open Scope N_scope.
+
+(* the four write paths end with a propagated flush; finish, flush and exec propagate every error *)
+Theorem C15_discipline :
+  IO_WRITE_ROWS_FLUSHES = true /\
+         IO_WRITE_POOL_FLUSHES = true /\
+         IO_WRITE_DATA_FLUSHES = true /\
+         IO_PROPSET_WRITE_FLUSHES = true /\
+         IO_FINISH_PROPAGATES = true /\ IO_FLUSH_PROPAGATES = true /\ IO_EXEC_PROPAGATES = true.
+Proof. exact discipline_now. Qed.
+
+(* a flushing write path that reports success has landed every byte, in order -- for every fault schedule *)
+Theorem C15_durable :
+  forall (sch : schedule) (s : sink) (chunks : list bytes) (s' : sink),
+         write_path true sch s chunks = (s', true) -> landed s' = landed s ++ concat chunks.
+Proof. exact write_path_durable. Qed.
+
+(* a whole save: success implies everything landed *)
+Theorem C15_save_durable :
+  IO_WRITE_ROWS_FLUSHES = true ->
+         IO_WRITE_POOL_FLUSHES = true ->
+         IO_WRITE_DATA_FLUSHES = true ->
+         IO_PROPSET_WRITE_FLUSHES = true ->
+         forall (sch : schedule) (s : sink) (ws : list (wkind * list bytes)) (s' : sink),
+         write_all sch s ws = (s', true) -> landed s' = landed s ++ all_bytes ws.
+Proof. exact write_all_durable. Qed.
+
+(* ... hence the medium holds what the fault-free run would have written *)
+Theorem C15_same_as_fault_free :
+  IO_WRITE_ROWS_FLUSHES = true ->
+         IO_WRITE_POOL_FLUSHES = true ->
+         IO_WRITE_DATA_FLUSHES = true ->
+         IO_PROPSET_WRITE_FLUSHES = true ->
+         forall (sch : schedule) (s : sink) (ws : list (wkind * list bytes)) (s' : sink),
+         write_all sch s ws = (s', true) -> landed s' = landed (fst (write_all (fun _ : nat => false) s ws)).
+Proof. exact write_all_same_as_fault_free. Qed.
+
+(* a failed path never corrupts what had landed before *)
+Theorem C15_prefix_safe :
+  forall (fl : bool) (sch : schedule) (s : sink) (chunks : list bytes) (s' : sink) (ok : bool),
+         write_path fl sch s chunks = (s', ok) -> exists more : list N, landed s' = landed s ++ more.
+Proof. exact write_path_extends. Qed.
+
+(* without faults every path succeeds *)
+Theorem C15_fault_free :
+  forall (fl : bool) (s : sink) (chunks : list bytes),
+         write_path fl (fun _ : nat => false) s chunks =
+         ({|
+            landed := landed s ++ concat chunks; calls := calls (fst (write_path fl (fun _ : nat => false) s chunks))
+          |}, true).
+Proof. exact write_path_fault_free. Qed.
+
+(* why the flush matters: without it there is a schedule where the path reports success and nothing landed (the defect repaired by 052f42f) *)
+Theorem C15_unflushed_refuted :
+  forall s : sink,
+         exists (sch : schedule) (chunks : list (list N)) (s' : sink),
+           chunks <> [] /\ concat chunks <> [] /\ write_path false sch s chunks = (s', true) /\ landed s' = landed s.
+Proof. exact write_path_unflushed_loses. Qed.
+
+Print Assumptions C15_discipline.
+Print Assumptions C15_durable.
+Print Assumptions C15_save_durable.
+Print Assumptions C15_same_as_fault_free.
+Print Assumptions C15_prefix_safe.
+Print Assumptions C15_fault_free.
+Print Assumptions C15_unflushed_refuted.
